@@ -15,81 +15,190 @@ def _skey(x):
     return (0, x) if isinstance(x, str) else (1, repr(x))
 
 
+class _Subst(ast.NodeTransformer):
+    """replace parameter names by the argument expressions of a call"""
+
+    def __init__(self, mapping):
+        self.mapping = mapping
+
+    def visit_Name(self, node):
+        if node.id in self.mapping:
+            return copy.deepcopy(self.mapping[node.id])
+        return node
+
+
+def _inline_calls(stmts, funcs, depth):
+    """statement list in which every statement that is just a call of a
+    function defined in the same module (`helper(a, b)`, also
+    `x = helper(a, b)` is left alone) is replaced by the helper's body with
+    its parameters replaced by the arguments; applied inside nested blocks
+    too, `depth` levels of helpers deep"""
+    out = []
+    for st in stmts:
+        st = copy.deepcopy(st)
+        call = st.value if isinstance(st, ast.Expr) and \
+            isinstance(st.value, ast.Call) else None
+        if call is not None and isinstance(call.func, ast.Name) and \
+                call.func.id in funcs and depth > 0:
+            helper = funcs[call.func.id]
+            params = [a.arg for a in helper.args.args]
+            mapping = {}
+            for prm, arg in zip(params, call.args):
+                mapping[prm] = arg
+            for kw in call.keywords:
+                if kw.arg is not None:
+                    mapping[kw.arg] = kw.value
+            body = [b for b in helper.body
+                    if not (isinstance(b, ast.Expr) and
+                            isinstance(b.value, ast.Constant))]   # docstring
+            body = [_Subst(mapping).visit(copy.deepcopy(b)) for b in body]
+            out.extend(_inline_calls(body, funcs, depth - 1))
+            continue
+        for field in ('body', 'orelse', 'finalbody'):
+            if hasattr(st, field) and isinstance(getattr(st, field), list):
+                setattr(st, field,
+                        _inline_calls(getattr(st, field), funcs, depth))
+        out.append(st)
+    return out
+
+
+def _flatten_elif(stmts):
+    """top-level statements, an `if … elif …` chain whose branches end in a
+    raise being listed branch by branch"""
+    out = []
+    for st in stmts:
+        out.append(st)
+        cur = st
+        while isinstance(cur, ast.If) and len(cur.orelse) == 1 and \
+                isinstance(cur.orelse[0], ast.If):
+            cur = cur.orelse[0]
+            out.append(cur)
+    return out
+
+
+def normalised_validator(path):
+    """validate_taxonomy_tree of the source file as one statement list:
+    same-module helpers inlined at their call sites (two levels), the tree
+    parameter renamed `taxonomy_tree`, every local bound to
+    `<tree>['hierarchy']` renamed `hierarchy`.  None if the function is not
+    there."""
+    mod = ast.parse(open(path).read())
+    funcs = {n.name: n for n in mod.body if isinstance(n, ast.FunctionDef)}
+    fn = funcs.get('validate_taxonomy_tree')
+    if fn is None or not fn.args.args:
+        return None
+    body = _inline_calls(fn.body, {k: v for k, v in funcs.items()
+                                   if k != 'validate_taxonomy_tree'}, 2)
+    tree_param = fn.args.args[0].arg
+    rename = {tree_param: ast.Name(id='taxonomy_tree', ctx=ast.Load())}
+    holder = ast.Module(body=body, type_ignores=[])
+    for n in ast.walk(holder):
+        if isinstance(n, ast.Assign) and len(n.targets) == 1 and \
+                isinstance(n.targets[0], ast.Name) and \
+                isinstance(n.value, ast.Subscript) and \
+                isinstance(n.value.value, ast.Name) and \
+                n.value.value.id == tree_param and \
+                isinstance(n.value.slice, ast.Constant) and \
+                n.value.slice.value == 'hierarchy':
+            rename[n.targets[0].id] = ast.Name(id='hierarchy', ctx=ast.Load())
+
+    class _Ren(ast.NodeTransformer):
+        def visit_Name(self, node):
+            if node.id in rename:
+                return ast.Name(id=rename[node.id].id, ctx=node.ctx)
+            return node
+    holder = _Ren().visit(holder)
+    return holder.body
+
+
+def _raises(ifnode):
+    return any(isinstance(b, ast.Raise) for b in ast.walk(
+        ast.Module(body=ifnode.body, type_ignores=[])))
+
+
+def _norm(expr):
+    return ast.unparse(expr).replace(' ', '')
+
+
 def extract_validator_constants(path):
     """(ignorable_keys or None, has_repeated_child_test,
-    has_no_children_test, recognised); the duplicate-level and no-nodes tests
-    are reported by `extract_validator_tests`"""
-    src = open(path).read()
-    mod = ast.parse(src)
-    fn = None
-    for node in ast.walk(mod):
-        if isinstance(node, ast.FunctionDef) and node.name == 'validate_taxonomy_tree':
-            fn = node
-    if fn is None:
+    has_no_children_test, recognised), read off the NORMALISED validator
+    (helpers inlined, locals renamed): facts, not the shape of the source"""
+    body = normalised_validator(path)
+    if body is None:
         return None, False, False, False
-    keys = None
-    for node in ast.walk(fn):
+    holder = ast.Module(body=body, type_ignores=[])
+    # the set of ignorable keys: a set literal of strings that is
+    # subtracted from the tree's key set (directly or through a local)
+    set_locals = {}
+    for node in ast.walk(holder):
         if isinstance(node, ast.Assign) and len(node.targets) == 1 and \
-                isinstance(node.targets[0], ast.Name) and node.targets[0].id == 'bad_keys' and \
+                isinstance(node.targets[0], ast.Name) and \
                 isinstance(node.value, ast.Set) and \
-                all(isinstance(e, ast.Constant) and isinstance(e.value, str) for e in node.value.elts):
-            keys = sorted(e.value for e in node.value.elts)
-    # the keys must be used as `set(taxonomy_tree.keys()) - bad_keys`
-    uses = any(isinstance(n, ast.BinOp) and isinstance(n.op, ast.Sub) and
-               isinstance(n.right, ast.Name) and n.right.id == 'bad_keys'
-               for n in ast.walk(fn))
-    # repeated-child test: a `raise` under `if len(set(x)) != len(x)` inside a
-    # loop over hierarchy[:-1]
+                all(isinstance(e, ast.Constant) and isinstance(e.value, str)
+                    for e in node.value.elts):
+            set_locals[node.targets[0].id] = sorted(
+                e.value for e in node.value.elts)
+    keys = None
+    for n in ast.walk(holder):
+        if isinstance(n, ast.BinOp) and isinstance(n.op, ast.Sub) and \
+                'taxonomy_tree.keys()' in _norm(n.left):
+            if isinstance(n.right, ast.Name) and n.right.id in set_locals:
+                keys = set_locals[n.right.id]
+            elif isinstance(n.right, ast.Set) and all(
+                    isinstance(e, ast.Constant) and isinstance(e.value, str)
+                    for e in n.right.elts):
+                keys = sorted(e.value for e in n.right.elts)
+    # child-list tests: inside a loop over hierarchy[:-1], for ONE list X of
+    # the loop: `if len(X) == 0 (or: not X, len(X) < 1): raise` and
+    # `if len(set(X)) != len(X): raise`
     strict = False
     nochild = False
-    for loop in ast.walk(fn):
+    for loop in ast.walk(holder):
         if not isinstance(loop, ast.For):
             continue
-        it = loop.iter
-        if not (isinstance(it, ast.Subscript) and isinstance(it.value, ast.Name)
-                and it.value.id == 'hierarchy' and isinstance(it.slice, ast.Slice)
-                and it.slice.lower is None and isinstance(it.slice.upper, ast.UnaryOp)
-                and isinstance(it.slice.upper.op, ast.USub)
-                and isinstance(it.slice.upper.operand, ast.Constant)
-                and it.slice.upper.operand.value == 1):
+        if _norm(loop.iter) not in ('hierarchy[:-1]',
+                                    'hierarchy[:len(hierarchy)-1]',
+                                    'hierarchy[0:-1]'):
             continue
-        for n in ast.walk(loop):
-            if isinstance(n, ast.If) and isinstance(n.test, ast.Compare) and \
-                    len(n.test.ops) == 1 and isinstance(n.test.ops[0], ast.NotEq) and \
-                    'len(set(' in ast.unparse(n.test) and \
-                    any(isinstance(b, ast.Raise) for b in n.body):
+        for n in _flatten_elif([x for x in ast.walk(loop)
+                                if isinstance(x, ast.If)]):
+            if not _raises(n):
+                continue
+            t = _norm(n.test)
+            m = None
+            import re
+            m = re.fullmatch(r'len\(set\((\w+)\)\)!=len\((\w+)\)', t) or \
+                re.fullmatch(r'len\((\w+)\)!=len\(set\((\w+)\)\)', t)
+            if m and m.group(1) == m.group(2):
                 strict = True
-            if isinstance(n, ast.If) and isinstance(n.test, ast.Compare) and \
-                    len(n.test.ops) == 1 and isinstance(n.test.ops[0], ast.Eq) and \
-                    ast.unparse(n.test).replace(' ', '') in (
-                        'len(child_list)==0',) and \
-                    any(isinstance(b, ast.Raise) for b in n.body):
+            if re.fullmatch(r'len\(\w+\)==0|0==len\(\w+\)|not\w+|'
+                            r'len\(\w+\)<1|notlen\(\w+\)', t):
                 nochild = True
-    return keys, strict, nochild, (keys is not None and uses)
+    return keys, strict, nochild, keys is not None
 
 
 def extract_validator_tests(path):
-    """{'dupLevel': bool, 'noNodes': bool}: are the top-level tests
+    """{'dupLevel': bool, 'noNodes': bool}: are the tests
     `len(set(hierarchy)) != len(hierarchy)` and
     `len(hierarchy) == 0 or len(taxonomy_tree[hierarchy[0]]) == 0`
-    (each guarding a `raise`) present in validate_taxonomy_tree?"""
-    mod = ast.parse(open(path).read())
-    fn = None
-    for node in ast.walk(mod):
-        if isinstance(node, ast.FunctionDef) and \
-                node.name == 'validate_taxonomy_tree':
-            fn = node
+    (each guarding a `raise`) among the top-level statements of the
+    normalised validator?"""
     out = {'dupLevel': False, 'noNodes': False}
-    if fn is None:
+    body = normalised_validator(path)
+    if body is None:
         return out
-    for n in fn.body:
-        if not (isinstance(n, ast.If) and
-                any(isinstance(b, ast.Raise) for b in n.body)):
+    for n in _flatten_elif(body):
+        if not (isinstance(n, ast.If) and _raises(n)):
             continue
-        test = ast.unparse(n.test).replace(' ', '')
-        if test == 'len(set(hierarchy))!=len(hierarchy)':
+        test = _norm(n.test)
+        if test in ('len(set(hierarchy))!=len(hierarchy)',
+                    'len(hierarchy)!=len(set(hierarchy))'):
             out['dupLevel'] = True
-        if test == 'len(hierarchy)==0orlen(taxonomy_tree[hierarchy[0]])==0':
+        if test in ('len(hierarchy)==0orlen(taxonomy_tree[hierarchy[0]])==0',
+                    'nothierarchyornottaxonomy_tree[hierarchy[0]]',
+                    'len(hierarchy)<1orlen(taxonomy_tree[hierarchy[0]])<1',
+                    'nothierarchyorlen(taxonomy_tree[hierarchy[0]])==0'):
             out['noNodes'] = True
     return out
 
@@ -170,6 +279,7 @@ ERR_PATTERNS = [
     ('has no parent at level', 'orphan'),
     ('is not present in the keys at', 'missingChild'),
     ('has at least two parents', 'twoParents'),
+    ('expected to have a parent at level', 'badParentLevel'),
     ('lists a level more than once', 'dupLevel'),
     ('has no nodes at its top level', 'noNodes'),
     ('has no children', 'noChildren'),
